@@ -15,24 +15,41 @@ class CallGraph:
 
     # ---- dispatch idiom: player constant -> node class -----------------------
     def _player_class_map(self):
-        """From StochasticGame.init_states: `if player == PLAYER_k: ... K(...)` gives value(PLAYER_k) -> K."""
+        """value(PLAYER_k) -> node class, from StochasticGame.init_states and the helpers it calls:
+        `if player == PLAYER_k: ... K(...)` / `return K`, or a dict display {PLAYER_k: K, ...}."""
         out = {}
         q = "tad.py::StochasticGame.init_states"
         if not self.prog.has_func(q):
             return out
-        f = self.prog.func(q)
-        for n in ast.walk(f.node):
-            if isinstance(n, ast.If) and isinstance(n.test, ast.Compare) and len(n.test.ops) == 1 \
-                    and isinstance(n.test.ops[0], ast.Eq):
-                ok, val = self.prog.try_const(n.test.comparators[0], f.mod)
-                if not ok:
-                    ok, val = self.prog.try_const(n.test.left, f.mod)
-                if not ok or not isinstance(val, str):
-                    continue
-                for st in n.body:
-                    for c in ast.walk(st):
-                        if isinstance(c, ast.Call) and isinstance(c.func, ast.Name) and c.func.id in self.prog.classes:
-                            out[val] = c.func.id
+        f0 = self.prog.func(q)
+        funcs = [f0]
+        for n in ast.walk(f0.node):
+            if isinstance(n, ast.Call):
+                name = n.func.attr if isinstance(n.func, ast.Attribute) else (n.func.id if isinstance(n.func, ast.Name) else None)
+                if name and f0.cls is not None and name in f0.cls.methods and f0.cls.methods[name] not in funcs:
+                    funcs.append(f0.cls.methods[name])
+                if name and name in f0.mod.funcs and f0.mod.funcs[name] not in funcs:
+                    funcs.append(f0.mod.funcs[name])
+        for f in funcs:
+            for n in ast.walk(f.node):
+                if isinstance(n, ast.If) and isinstance(n.test, ast.Compare) and len(n.test.ops) == 1 \
+                        and isinstance(n.test.ops[0], ast.Eq):
+                    ok, val = self.prog.try_const(n.test.comparators[0], f.mod)
+                    if not ok:
+                        ok, val = self.prog.try_const(n.test.left, f.mod)
+                    if not ok or not isinstance(val, str):
+                        continue
+                    for st in n.body:
+                        for c in ast.walk(st):
+                            if isinstance(c, ast.Call) and isinstance(c.func, ast.Name) and c.func.id in self.prog.classes:
+                                out.setdefault(val, c.func.id)
+                            if isinstance(c, ast.Return) and isinstance(c.value, ast.Name) and c.value.id in self.prog.classes:
+                                out.setdefault(val, c.value.id)
+                if isinstance(n, ast.Dict) and n.keys and all(isinstance(v, ast.Name) and v.id in self.prog.classes for v in n.values):
+                    for k, v in zip(n.keys, n.values):
+                        ok, val = self.prog.try_const(k, f.mod) if k is not None else (False, None)
+                        if ok and isinstance(val, str):
+                            out.setdefault(val, v.id)
         return out
 
     def guard_classes(self, call, recv_name, f):
@@ -105,6 +122,19 @@ class CallGraph:
                 return [init] if init else []
             if name in f.mod.funcs:
                 return [f.mod.funcs[name]]
+            # a local holding a class returned by a helper: `cls = self._pick(...); cls(...)`
+            out = []
+            for n in walk_no_nested_defs(f.node):
+                if isinstance(n, ast.Assign) and len(n.targets) == 1 and isinstance(n.targets[0], ast.Name) and n.targets[0].id == name \
+                        and isinstance(n.value, ast.Call) and n.value is not call:
+                    for g in self.resolve(n.value, f, ctor_types):
+                        for r in ast.walk(g.node):
+                            if isinstance(r, ast.Return) and isinstance(r.value, ast.Name) and r.value.id in prog.classes:
+                                init = prog.resolve_method(r.value.id, "__init__")
+                                if init and init not in out:
+                                    out.append(init)
+            if out:
+                return out
             if name in f.mod.imports:
                 m2, attr = f.mod.imports[name]
                 if attr and m2 in prog.mods:
